@@ -46,6 +46,10 @@ PROGRAM_OF = {"misc/e2undo.c": "e2undo", "debugfs/journal.c": "debugfs", "debugf
 BOUND_EXTRA = [("debugfs/htree.c", None), ("debugfs/logdump.c", None)]
 
 
+HELPERS = {}
+HELPER_GUARDS = {}
+
+
 def collect(world, thorough=False):
     """-> (sinks, guards): sinks {key: n_guards}, guards {(function key, shape): number of tests of that shape}"""
     sinks = {}
@@ -54,15 +58,24 @@ def collect(world, thorough=False):
     for (file, names) in SCOPE:
         prog = world.program(PROGRAM_OF.get(file, "e2fsck"), plain=True)
         fns = prog.fns_in_file(file)
-        if names is not None:
-            fns = [f for f in fns if f.name in names]
-            missing = set(names) - {f.name for f in fns}
-            # functions that do not exist in this tree (names differ between versions) are only an error when
-            # the frozen list mentions them
         for fn in fns:
-            n_fn += 1
-            ft = taint.FnTaint(fn)
+            in_scope = names is None or fn.name in names
+            ft = taint.FnTaint(fn, prog)
             fkey = "%s:%s" % (fn.file, fn.name)
+            # file-local helpers a function calls: a comparison moved into one of them still guards the caller
+            for c in fn.call_nodes():
+                for g_ in prog.callees(fn, c.ev["x"], weak=False):
+                    if g_.file == fn.file and g_.key != fn.key:
+                        HELPERS.setdefault(fkey, set()).add("%s:%s" % (g_.file, g_.name))
+            if not in_scope:
+                # not judged itself; its ordering comparisons are kept in case it is such a helper
+                for bid in fn.blocks:
+                    lit = fn.literal(bid)
+                    sh = ft.guard_shape(lit[0]) if lit else None
+                    if sh and (" < " in sh or " <= " in sh):
+                        HELPER_GUARDS[(fkey, sh)] = HELPER_GUARDS.get((fkey, sh), 0) + 1
+                continue
+            n_fn += 1
             # guards anywhere in the function
             lits = {}
             for bid in fn.blocks:
@@ -152,10 +165,15 @@ def run(world, rep, tier, only=None):
     for (f, sh) in guards:
         byfn.setdefault(f, set()).add(sh)
     for (f, sh) in sorted(rg):
-        ok = guards.get((f, sh), 0) >= rg[(f, sh)]
+        have = guards.get((f, sh), 0)
+        if have < rg[(f, sh)]:
+            # a comparison extracted into a file-local helper that the reference does not know (a new function)
+            # is still made on the caller's behalf
+            have += sum(guards.get((h, sh), 0) + HELPER_GUARDS.get((h, sh), 0) for h in HELPERS.get(f, ()) if h not in ref_fns)
+        ok = have >= rg[(f, sh)]
         rep.ob("C06.a", "%s:guard %s" % (f, sh), ok,
                "comparison on untrusted value still present with the same operands and strictness, %d time(s) (reference %d)%s" %
-               (guards.get((f, sh), 0), rg[(f, sh)],
+               (have, rg[(f, sh)],
                 "" if ok else "; comparisons now in this function: %s" % sorted(byfn.get(f, set()))[:6]))
     # new unguarded sinks: notes only
     new_unguarded = [k for k in sinks if k not in rs and sinks[k] == 0]
@@ -324,36 +342,46 @@ def run(world, rep, tier, only=None):
             n_g += 1
             sv = T.vars_in(rhs)
             body = loop_body(fn, hb)
-            lower = upper = False
+            lower = upper = room = False
+            iv = l["n"]
             for bid in fn.blocks:
                 end_ = fn.block_end(bid)
-                t_ = fn.blocks[bid].get("t")
-                if end_ not in body or not t_ or not isinstance(t_.get("c"), dict) or not fn.dominated_by(n, [end_]):
+                lit = fn.literal(bid)
+                if end_ not in body or not lit or not fn.dominated_by(n, [end_]):
                     continue
-                for x in T.walk(t_["c"]):
-                    if not (isinstance(x, dict) and x.get("k") == "b" and x.get("o") in ("<", "<=", ">", ">=")):
-                        continue
-                    if not (T.vars_in(x) & sv):
-                        continue
-                    small, big = (x.get("l"), x.get("r")) if x["o"] in ("<", "<=") else (x.get("r"), x.get("l"))
-                    if (T.vars_in(small) & sv) and (T.const(big) or 0) >= 1:
-                        lower = True        # rec_len < K: too small to be an entry
-                    if (T.vars_in(big) & sv) and (T.field_names(small) & {"blocksize"} or T.vars_in(small) & {"blocksize"}):
-                        upper = True        # offset + rec_len > blocksize
-            # the loop goes round only while a whole entry header (8 bytes) still lies inside the block
-            cond = (fn.blocks[hb].get("t") or {}).get("c")
-            a0 = T.strip(cond) if isinstance(cond, dict) else None
-            room = False
-            if isinstance(a0, dict) and a0.get("k") == "b" and a0.get("o") in ("<", "<=", ">", ">="):
-                l_, r_, o_ = a0["l"], a0["r"], a0["o"]
+                x = T.strip(lit[0])
+                if not (isinstance(x, dict) and x.get("k") == "b" and x.get("o") in ("<", "<=", ">", ">=")):
+                    continue
+                sides = (x.get("l"), x.get("r"))
+                # whichever way round and with whichever polarity it is written: a test that relates rec_len to the
+                # size of an entry header, and one that relates where the entry ends to the block size
+                for p_, q_ in (sides, sides[::-1]):
+                    if (T.vars_in(p_) & sv) and (T.const(q_) or 0) >= 1:
+                        lower = True
+                    if (T.vars_in(p_) & sv) and (T.field_names(q_) & {"blocksize"} or T.vars_in(q_) & {"blocksize"}):
+                        upper = True
+                # room for a header: what holds on the edge that stays in the loop, as  cursor + slack <(=) blocksize
+                if T.vars_in(x) & sv:
+                    continue
+                stay = [si for (m, si) in fn.succ(end_) if m in body and si is not None]
+                if len(stay) != 1:
+                    continue
+                holds = lit[1] if stay[0] == 0 else (not lit[1])
+                l_, r_, o_ = x["l"], x["r"], x["o"]
+                if not holds:
+                    o_ = {"<": ">=", "<=": ">", ">": "<=", ">=": "<"}[o_]
                 if o_ in (">", ">="):
                     l_, r_, o_ = r_, l_, {">": "<", ">=": "<="}[o_]
                 fl_, fr_ = linear_form(l_, fn), linear_form(r_, fn)
-                if fl_ is not None and fr_ is not None:
-                    slack = fl_.get(1, 0) - fr_.get(1, 0)      # offset + slack  <(=)  blocksize
-                    room = (o_ == "<=" and slack >= 8) or (o_ == "<" and slack >= 7)
+                if fl_ is None or fr_ is None or iv not in fl_ or not any("blocksize" in str(k) for k in fr_):
+                    continue
+                slack = fl_.get(1, 0) - fr_.get(1, 0)
+                if (o_ == "<=" and slack >= 8) or (o_ == "<" and slack >= 7):
+                    room = True
+            # the loop goes round only while a whole entry header (8 bytes) still lies inside the block
+            cond = (fn.blocks[hb].get("t") or {}).get("c")
             rep.ob("C06.f", site(fn, "directory walk stops when no entry header fits any more"), room,
-                   "loop condition `%s`: an 8-byte header at the cursor lies inside the block" % T.pp(cond or {})[:40])
+                   "a test that every turn passes before the cursor is used keeps an 8-byte header inside the block (loop condition `%s`)" % T.pp(cond or {})[:40])
             rep.ob("C06.f", site(fn, "directory walk validates rec_len before it strides by it"), lower and upper,
                    "`%s` (line %d): a test rejects a rec_len too small for an entry: %s; one that runs past the block: %s" %
                    (n.text()[:30], n.line, lower, upper))
@@ -483,9 +511,7 @@ def run(world, rep, tier, only=None):
                     continue
                 exprs = [n.ev.get(k_) for k_ in ("x", "lhs", "rhs") if isinstance(n.ev.get(k_), dict)]
                 for e in exprs:
-                    for x in T.walk(e):
-                        if not (isinstance(x, dict) and x.get("k") == "x"):
-                            continue
+                    for x, tern in _subscripts_with_conditions(e):
                         base, idx = T.strip(x.get("b") or x.get("a") or {}), T.strip(x.get("i") or {})
                         if not (isinstance(base, dict) and base.get("k") == "v" and base.get("s") == "g" and isinstance(idx, dict)
                                 and idx.get("k") == "v" and idx.get("s") in ("p", "l")):
@@ -501,7 +527,7 @@ def run(world, rep, tier, only=None):
                         nel = len(init["e"])
                         # the largest index the dominating comparisons with constants admit
                         hi = None
-                        for t, a_ in control_lits(fn, n):
+                        for t, a_ in list(control_lits(fn, n)) + tern:
                             a0 = T.strip(a_)
                             if t is None or not (isinstance(a0, dict) and a0.get("k") == "b" and a0.get("o") in ("<", "<=", ">", ">=")):
                                 continue
@@ -617,6 +643,36 @@ def run(world, rep, tier, only=None):
             pass
     except ImportError:
         pass
+
+
+def _cond_facts(c, truth):
+    """comparison atoms known to hold (with their truth) when the condition c evaluates to `truth`"""
+    c = T.strip(c)
+    if not isinstance(c, dict):
+        return []
+    if c.get("k") == "u" and c.get("o") == "!":
+        return _cond_facts(c.get("e"), not truth)
+    if c.get("k") == "b" and c.get("o") == "&&":
+        return _cond_facts(c["l"], True) + _cond_facts(c["r"], True) if truth else []
+    if c.get("k") == "b" and c.get("o") == "||":
+        return _cond_facts(c["l"], False) + _cond_facts(c["r"], False) if not truth else []
+    return [(truth, c)]
+
+
+def _subscripts_with_conditions(e, conds=()):
+    """(subscript node, [(truth, atom)] from the conditional expressions it sits in) for every subscript in e"""
+    e0 = e
+    if not isinstance(e0, dict):
+        return
+    if e0.get("k") == "x":
+        yield e0, list(conds)
+    if e0.get("k") == "?":
+        yield from _subscripts_with_conditions(e0.get("c0"), conds)
+        yield from _subscripts_with_conditions(e0.get("t"), tuple(conds) + tuple(_cond_facts(e0.get("c0"), True)))
+        yield from _subscripts_with_conditions(e0.get("f"), tuple(conds) + tuple(_cond_facts(e0.get("c0"), False)))
+        return
+    for ch in T.children(e0):
+        yield from _subscripts_with_conditions(ch, conds)
 
 
 def _truth_at_zero(atom, r):
